@@ -234,7 +234,25 @@ def run_canary(name, fn_name, tier):
     """Add `ensures false` to one function of the unit; verification of that
     function must fail (otherwise its preconditions are contradictory or the
     run is vacuous)."""
-    from .assemble import Clause
+    from .assemble import Clause, Raw
+
+    if fn_name.startswith('lemmas:'):
+        # a file of deliberately false lemmas (e.g. unsound inference rules): every one of them must fail
+        fname = fn_name.split(':', 1)[1]
+        text = open(os.path.join(vxrun.ROOT, 'units', name, fname)).read()
+        lemmas = re.findall(r'proof fn (\w+)', text)
+
+        def variant_l(unit):
+            unit.ITEMS.append(Raw(text=text, tag='spec'))
+        variant_l.__name__ = 'canary_' + re.sub(r'\W', '_', fname)
+        R = run_unit(name, tier, variant=variant_l)
+        if R.status == 'undecided':
+            return False, R.reason
+        missing = [l for l in lemmas if not any(f.label == f'lemma.{l}' for f in R.failures)]
+        other = [f.label for f in R.failures if not any(f.label == f'lemma.{l}' for l in lemmas)]
+        if other:
+            return False, 'unexpected failures in the canary run: ' + ', '.join(other[:3])
+        return (not missing and bool(lemmas)), ('false lemma(s) were proved: ' + ', '.join(missing) if missing else '')
 
     def variant(unit):
         for it in unit.ITEMS:
